@@ -6,6 +6,10 @@ environment is current.  So every change of the current environment must be pair
 profile pointer, the name must be resolved inside the caller's own environment, and only services bound
 to the current environment may move the pointer.
 
+What counts as a clear (R1): only a statement after which *no* name is stored whatever was stored before.  A delete
+restricted by the stored value or by the profiles table ("clear it if it is one of the removed profiles") leaves a
+dangling name (renamed / already deleted profile) in place, and the fall-back environment then resolves it.
+
 Who may write the pointer (R5): a bare name identifies a profile only together with the environment it is resolved in,
 so a name may be stored only by the one primitive (whose callers R3 vets) and only when it was looked up or created
 inside the writing service's own environment.  A writer keyed on a profile *name* alone (e.g. "rewrite the setting
@@ -29,8 +33,12 @@ from .c17 import _multi
 EXPLANATION = (
     "R1 (pairing, CFG): every site that changes the current environment — a call of `set_settings_current_environment` anywhere in the "
     "llamactl package, or an SQL statement writing the settings key `current_environment_api_url` outside that primitive — lies on no "
-    "normal path entry -> site -> exit that avoids a clear of the profile pointer (`set_settings_current_profile(None)` or SQL DELETE of "
-    "the key `current_profile`); SQL texts (literals, or concatenations of literals, straight-line locals and module-level string constants) are read "
+    "normal path entry -> site -> exit that avoids an *unconditional* clear of the profile pointer: `set_settings_current_profile(None)`, or an SQL DELETE on settings "
+    "whose WHERE clause only selects the row by its key (`key = 'current_profile'`, `key IN (…)`, or no WHERE). A DELETE with any further conjunct (on the stored `value`, a sub-select over "
+    "profiles, a bound parameter) removes the name only for some stored values and does not count as the pairing clear — a stale or dangling name would survive the change of environment "
+    "and be resolved in the new one; a Python test around the clear is seen by the path search itself. This covers the ConfigManager primitive level too: delete_environment's fall-back to the "
+    "default environment is an env-change site (SQL write of the key), and the DELETE inside `set_settings_current_profile` (on which every call-level pairing relies) must itself be unconditional "
+    "(primitive-clear-unconditional). A WHERE clause the reader cannot split into such conjuncts (OR, non-literal key) is an analysis error. SQL texts (literals, or concatenations of literals, straight-line locals and module-level string constants) are read "
     "with a small statement reader (kind, table, quoted keys, WHERE conjuncts); private static helpers that are new with respect to the confirmed tree are folded into their callers first. "
     "R2: the stored name is resolved inside the asking environment: AuthService.get_current_profile passes `self.env.api_url`, "
     "ConfigManager.get_current_profile forwards it to get_profile, whose SELECT filters on both `name = ?` and `api_url = ?` bound to "
@@ -64,6 +72,7 @@ SET_ENV = "set_settings_current_environment"
 SET_PROFILE = "set_settings_current_profile"
 FIXTURE = "fixtures/c37/planted.py"
 NOEXC = ("exc", "cancel")
+COND_FLOOR = "environment changes whose only clear is value-dependent"
 
 
 # ------------------------------------------------------------------------------ mini SQL reader
@@ -107,6 +116,29 @@ class Sql:
                 cur = []
             else:
                 cur.append(t)
+        return out
+
+    def conjuncts(self) -> list[list[str]]:
+        """Top-level AND-conjuncts (token lists) of the statement's own WHERE clause; parentheses (sub-selects, IN lists)
+        are kept inside their conjunct.  [] when there is no WHERE."""
+        if "where" not in self.toks:
+            return []
+        out: list[list[str]] = []
+        cur: list[str] = []
+        depth = 0
+        for t in self.toks[self.toks.index("where") + 1:]:
+            if t == "(":
+                depth += 1
+            elif t == ")":
+                depth -= 1
+            if depth == 0 and t in ("order", "limit", "group", "returning", ";"):
+                break
+            if depth == 0 and t == "and":
+                out.append(cur)
+                cur = []
+            else:
+                cur.append(t)
+        out.append(cur)
         return out
 
     def placeholders_before_where(self) -> int:
@@ -219,14 +251,54 @@ def env_change_sites(fn: ast.AST, *, primitive: bool) -> list[tuple[ast.AST, str
     return sites
 
 
+def clear_scope(s: Sql) -> tuple[str, str]:
+    """How much a `DELETE FROM settings …` that mentions the key current_profile removes:
+    ('full', '')            the row of the key whatever name it holds (no WHERE at all, or every conjunct only selects
+                            the row by its key: `key = 'current_profile'` / `key IN (… 'current_profile' …)`);
+    ('conditional', text)   some conjunct restricts the delete by anything else (the stored `value`, a sub-select over
+                            another table, a bound parameter): for some stored names the row survives.
+    A WHERE clause that is neither (an OR, a key compared with something that is not a literal) is an analysis error."""
+    if s.kind != "delete" or s.table != "settings":
+        raise AnchorError(f"C37.R1: `{s.text}` is not a DELETE on settings")
+    extra = []
+    selects_key = "where" not in s.toks
+    for cj in s.conjuncts():
+        while len(cj) >= 2 and cj[0] == "(" and cj[-1] == ")" and "(" not in cj[1:-1]:
+            cj = cj[1:-1]
+        q = f"'{PROFILE_KEY}'"
+        if len(cj) == 3 and cj[1] == "=" and sorted((cj[0], cj[2]), key=lambda t: t.startswith("'")) == ["key", q]:
+            selects_key = True
+        elif len(cj) >= 5 and cj[0] == "key" and cj[1] == "in" and cj[2] == "(" and cj[-1] == ")" and all(t == "," or t.startswith("'") for t in cj[3:-1]) and q in cj[3:-1]:
+            selects_key = True
+        elif "or" in cj or not cj:
+            raise AnchorError(f"C37.R1: cannot read the WHERE clause of `{s.text}` (which stored names survive the delete?)")
+        else:
+            extra.append(" ".join(cj))
+    if not selects_key:
+        raise AnchorError(f"C37.R1: `{s.text}` mentions {PROFILE_KEY} but does not select the row by its key")
+    return ("conditional", " AND ".join(extra)) if extra else ("full", "")
+
+
+def pointer_deletes(fn: ast.AST) -> list[tuple[ast.Call, Sql, str, str]]:
+    """(call, statement, scope, restricting conjuncts) of every SQL DELETE in fn that removes (or may remove) the stored name."""
+    out = []
+    for c, s in settings_writes(fn):
+        if s.kind == "delete" and (PROFILE_KEY in s.quoted or "where" not in s.toks):
+            scope, extra = clear_scope(s)
+            out.append((c, s, scope, extra))
+    return out
+
+
 def profile_clears(fn: ast.AST) -> list[ast.AST]:
+    """Statements after which no active-profile name is stored, whatever was stored before: `set_settings_current_profile(None)`
+    and SQL deletes of the row that are not restricted by the stored value or anything else (clear_scope 'full')."""
     out: list[ast.AST] = []
     for c in calls_named(fn, SET_PROFILE):
         a = kwarg(c, "name", 0)
         if is_none(a):
             out.append(c)
-    for c, s in settings_writes(fn):
-        if s.kind == "delete" and (PROFILE_KEY in s.quoted or "where" not in s.toks):
+    for c, _s, scope, _x in pointer_deletes(fn):
+        if scope == "full":
             out.append(c)
     return out
 
@@ -471,7 +543,14 @@ def eval_rules(mods: dict[str, tuple[object, ast.AST]], all_mods: list[tuple[obj
         raise AnchorError(f"`{SET_PROFILE}` no longer deletes the key {PROFILE_KEY} for None")
 
     # ---------------------------------------------------------------- R1
-    nsites = 0
+    # the clear every paired site relies on: the primitive called with None removes the row whatever name it holds
+    n_del = 0
+    for c, s, scope, extra in pointer_deletes(prim_prof):
+        n_del += 1
+        yield ("ob", "C37.R1", "primitive-clear-unconditional", f"`{SET_PROFILE}(None)` deletes the stored active-profile name whatever it is (the DELETE selects the row by its key only)",
+               scope == "full", cm, c, prim_prof,
+               f"the clear is restricted by `{extra}`: for a stored name outside that restriction `{SET_PROFILE}(None)` leaves the name in place, so every environment change that relies on it keeps the old name", [])
+    nsites = n_cond = 0
     for m, tree in all_mods:
         for fn in [n for n in ast.walk(tree) if isinstance(n, FuncNode)]:
             sites = env_change_sites(fn, primitive=fn is prim_env)
@@ -479,15 +558,23 @@ def eval_rules(mods: dict[str, tuple[object, ast.AST]], all_mods: list[tuple[obj
             if not sites:
                 continue
             clears = [c for c in profile_clears(fn) if enclosing_function(c) is fn]
+            dels = [d for d in pointer_deletes(fn) if enclosing_function(d[0]) is fn] if fn is not prim_prof else []
+            n_del += len(dels)
+            partial = [(c, extra) for c, _s, scope, extra in dels if scope == "conditional"]
             for i, (site, kind) in enumerate(sites):
                 nsites += 1
                 path = unpaired(fn, site, clears)
+                why = "the current environment changes while settings.current_profile keeps a name chosen in the previous environment; a same-named profile of the new environment becomes active without having been picked"
+                if path is not None and partial:
+                    n_cond += 1
+                    why = ("the only clear on this path is " + "; ".join(f"the DELETE at line {c.lineno} restricted by `{x}`" for c, x in partial) + ": it removes the stored name only when that restriction holds "
+                           "(a stale or dangling name, e.g. of a renamed or already deleted profile, survives). The clear must not depend on the stored value or on the profiles table. " + why)
                 yield ("ob", "C37.R1", f"env-change:{kind}" + (f"#{i}" if len(sites) > 1 else ""),
-                       f"the change of the current environment ({kind}) is paired with a clear of the profile pointer on every normal path",
-                       path is None, m, site, fn,
-                       "the current environment changes while settings.current_profile keeps a name chosen in the previous environment; a same-named profile of the new environment becomes active without having been picked",
-                       path or [])
+                       f"the change of the current environment ({kind}) is paired with an unconditional clear of the profile pointer on every normal path",
+                       path is None, m, site, fn, why, path or [])
     yield ("floor", "C37.R1", "sites that change the current environment", nsites)
+    yield ("floor", "C37.R1", "SQL deletes of the key current_profile read and classified (full / value-dependent)", n_del)
+    yield ("floor", "C37.R1", COND_FLOOR, n_cond)
 
     # ---------------------------------------------------------------- R2
     a_get = method(AS, "get_current_profile")
@@ -820,6 +907,7 @@ def run(chk) -> None:
     mods = {"config": (cm, cm.tree), "env": (em, em.tree), "auth": (am, am.tree)}
     floors_min = {
         ("C37.R1", "sites that change the current environment"): 3,
+        ("C37.R1", "SQL deletes of the key current_profile read and classified (full / value-dependent)"): 1,  # the primitive's (today 2: + delete_environment's, whose absence is a violation of the pairing, not a floor error)
         ("C37.R3", "non-None writes of the profile pointer"): 3,
         ("C37.R3", "AuthService constructions"): 3,
         ("C37.R3", "callers of pointer-moving AuthService methods"): 6,
@@ -831,6 +919,8 @@ def run(chk) -> None:
     for item in eval_rules(mods, [(m, m.tree) for m in pkg]):
         if item[0] == "floor":
             _k, rule, what, n = item
+            if what == COND_FLOOR:
+                continue  # zero expected on the repo; the planted example below must be counted
             chk.floor(rule, what, n, floors_min[(rule, what)])
         else:
             _k, rule, inst, desc, ok, m, node, fn, reason, path = item
@@ -848,6 +938,8 @@ def run(chk) -> None:
     for item in eval_rules(fmods, [(fm, tree)]):
         if item[0] == "ob" and not item[4]:
             bad[item[1]] = bad.get(item[1], 0) + 1
+        if item[0] == "floor" and item[2] == COND_FLOOR:
+            chk.floor("C37.R1", "planted value-dependent clear (fixture purge_environment) not accepted as the pairing clear", item[3], 1)
     for rule in ("C37.R1", "C37.R2", "C37.R3", "C37.R4", "C37.R5"):
         chk.floor(rule, "planted defects reported in the fixture", bad.get(rule, 0), 1)
     chk.observe("delete_profile clears the pointer whenever the deleted profile's *name* equals the stored name, even if it belongs to another environment: the active profile becomes none (allowed by the statement)")
@@ -893,7 +985,32 @@ _REN_CONST = ('            was = conn.execute("SELECT name FROM profiles WHERE i
               '            if was and now and was[0] == now[0]:\n                conn.execute(f"INSERT OR REPLACE INTO settings (key, value) VALUES (\'{_ACTIVE}\', ?)", (profile.name,))\n')
 
 
+_CLR = '                conn.execute("DELETE FROM settings WHERE key = \'current_profile\'")\n\n            conn.commit()\n            return True\n'
+_DELP = '            # Delete profiles tied to this environment\n'
+_PRIM_CLR = '            if name is None:\n                conn.execute("DELETE FROM settings WHERE key = \'current_profile\'")\n'
+
+
+def _clr(stmt: str) -> str:
+    return _CLR.replace('conn.execute("DELETE FROM settings WHERE key = \'current_profile\'")', stmt)
+
+
 TWINS: list[Twin] = [
+    # ---- R1: the clear that pairs an environment change must not depend on the stored name or on the profiles table
+    Twin("delete_environment clears the pointer only if it names a profile of the removed environment", _C, *_multi(_C, [
+        (_CLR, "\n            conn.commit()\n            return True\n"),
+        (_DELP, '            conn.execute(\n                "DELETE FROM settings WHERE key = \'current_profile\' AND value IN "\n                "(SELECT name FROM profiles WHERE api_url = ?)",\n                (api_url,),\n            )\n' + _DELP)]), "C37.R1"),
+    Twin("fall-back clears the pointer only when the name is dangling everywhere", _C, _CLR,
+         _clr('conn.execute("DELETE FROM settings WHERE key = \'current_profile\' AND value NOT IN (SELECT name FROM profiles)")'), "C37.R1"),
+    Twin("fall-back clears the pointer under a Python test of the stored name", _C, _CLR,
+         _clr('active = conn.execute("SELECT value FROM settings WHERE key = \'current_profile\'").fetchone()\n                if active and active[0] in removed:\n'
+              '                    conn.execute("DELETE FROM settings WHERE key = \'current_profile\'")').replace("active[0] in removed", "conn.execute(\"SELECT 1 FROM profiles WHERE name = ?\", (active[0],)).fetchone() is None"), "C37.R1"),
+    Twin("the primitive drops only names that exist as profiles", _C, _PRIM_CLR,
+         '            if name is None:\n                conn.execute("DELETE FROM settings WHERE key = \'current_profile\' AND value IN (SELECT name FROM profiles)")\n', "C37.R1"),
+    Twin("benign: clear spelled with key IN (...)", _C, _CLR, _clr('conn.execute("DELETE FROM settings WHERE key IN (\'current_profile\')")'), None),
+    Twin("benign: clear with the literal on the left, parenthesised", _C, _CLR, _clr('conn.execute("DELETE FROM settings WHERE (\'current_profile\' = key)")'), None),
+    Twin("benign: clear before the reset inside the same branch", _C, *_multi(_C, [
+        (_CLR, "\n            conn.commit()\n            return True\n"),
+        ("            if row and row[0] == api_url:\n", '            if row and row[0] == api_url:\n                conn.execute("DELETE FROM settings WHERE key = \'current_profile\'")\n')]), None),
     # ---- SQL assembled from a shared column constant; single-row lookup / reset block behind a private static helper
     Twin("benign: lookup through a static helper over a column constant", _C, *_multi(_C, [_COLS, (_GP, _gp_helper("name = ? AND api_url = ?", "(name, env_url)"))]), None),
     Twin("static helper lookup filters on the name only", _C, *_multi(_C, [_COLS, (_GP, _gp_helper("name = ?", "(name,)"))]), "C37.R2"),
